@@ -199,7 +199,11 @@ func (g G) refExpr(simple bool) string {
 	if simple {
 		return a
 	}
-	switch g.Weighted(55, 10, 8, 8, 7, 6, 6, 12) {
+	switch g.Weighted(55, 10, 8, 8, 7, 6, 6, 12, 8) {
+	case 8:
+		// parenthesised, with blanks or a line break around the wrapped expression
+		pad := Pick(g, []string{" ", "  ", "\n    ", ""})
+		return "(" + pad + a + Pick(g, []string{"", " ", pad}) + ")"
 	case 7:
 		// a call of a function with typed parameters, written with gaps after the commas
 		// and possibly fewer / more arguments than parameters
